@@ -301,6 +301,24 @@ def one_case(R, L, cls, name, cname, v, cell, sentinel, deser=None, via=None):
     if st == 'exc':
         R.violation(f'cannot-build-{name}', f'encoded {name}.{cname} cannot be constructed: {lc!r}', W)
         return
+    # now and then the same parser is first given damaged versions of the cell (cut short, a reference missing, leading tag bits inverted); what it does with
+    # them is not judged here - but the valid parse that follows must not depend on them (guards, counters and caches left behind by a rejected parse)
+    if R.rng.random() < 0.3:
+        for _ in range(R.rng.randint(1, 3)):
+            bits, refs = cell.bits, list(cell.refs)
+            how = R.rng.choice(['cut', 'cut', 'ref', 'tag'])
+            if how == 'cut' and bits:
+                bits = bits[:R.rng.randrange(len(bits))]
+            elif how == 'ref' and refs:
+                refs = refs[:-1]
+            else:
+                k = min(len(bits), R.rng.randint(1, 6))
+                bits = ''.join('1' if c == '0' else '0' for c in bits[:k]) + bits[k:]
+            st0, bad = mon.call(lambda: bridge.to_lib(rc.RC(bits, refs)).begin_parse())
+            if st0 == 'ok':
+                st0, _ = mon.call((deser or cls.deserialize), bad)
+                R.cover('damaged_parse_outcomes', f'{how}:{st0}')
+                R.count('damaged_parses_before_valid')
     sl = lc.begin_parse()
     st, o = mon.call((deser or cls.deserialize), sl)
     R.counters['oracle_evaluations'] += 1
